@@ -56,7 +56,7 @@ def canonicalize_url(
 
     # Path normalization
     if path and path != "/":
-        trailing_slash = path.endswith(("/", "/.", "/.."))
+        trailing_slash = path.replace("%2E", ".").endswith(("/", "/.", "/.."))
         path = normpath(path)
 
         # NOTE: a trailing slash is part of the resource's name
